@@ -62,6 +62,13 @@ func genFaults(c *Ctx, kinds []string) {
 			faultSweep(c, p, t, kinds, true)
 		}
 	}
+	// value terminals built on Consume (FindFirstAndLast, FindLast, Count): a fault at any position - before the first
+	// element, between elements, after the last - must come back as the error, never as "empty" or as a value
+	for _, p := range fixed {
+		for _, t := range []string{"ffl all", "flast all", "count all"} {
+			faultSweep(c, p, t, kinds, true)
+		}
+	}
 	// asynchronous stages (Buffered, concurrent map, concurrent consume): every fault position as well; the
 	// observation is taken after the library's goroutines have quiesced. Order across goroutines is schedule
 	// dependent, so these cases are decided by the spec predicate only (no comparison with the sequential model).
